@@ -300,6 +300,48 @@ class HostSim:
         if p[0] == 'data' and p[2] == []: return 'ok'
         return 'status-' + str(p)
 
+    async def foreign_txn(self, kind, addr, ep=1, payload=(), data_pid=PID_DATA0, hs=PID_ACK, quick=True):
+        """One transaction addressed to ANOTHER device, as this device sees it on a shared bus segment (tokens and host data
+        on its receiver, and -- UTMI has a single receive channel -- the other device's answers as well).  The device under
+        test must not transmit anything during it.  kind: 'out' | 'setup' (token, data, the other device's handshake `hs` or
+        nothing if hs is None), 'in' (token, the other device's data packet, the host's handshake), 'in_hs' (token, the other
+        device's NAK/STALL), 'ping', 'token' (OUT token never followed by data).  quick: the other party answers after a
+        few cycles (as a real device would); otherwise after the full time-out.  Returns the bytes this device transmitted
+        during the transaction (should be [])."""
+        rng = self.rng
+        n0 = len([1 for k, _ in self.log if k == 'd'])
+
+        async def turnaround():
+            if quick: await self.idle(rng.randint(2, 6))
+            else: await self.wait_response()
+        if kind in ("out", "setup"):
+            await self.token(PID_SETUP if kind == "setup" else PID_OUT, ep, addr)
+            await self.idle(rng.randint(1, 3))
+            await self.send_packet(data_bytes(data_pid, payload))
+            await turnaround()
+            if hs is not None:
+                await self.send_packet([pid_byte(hs)])
+        elif kind == "in":
+            await self.token(PID_IN, ep, addr)
+            await turnaround()
+            await self.send_packet(data_bytes(data_pid, payload))
+            await self.idle(rng.randint(2, 4))
+            if hs is not None:
+                await self.send_packet([pid_byte(hs)])
+        elif kind == "in_hs":
+            await self.token(PID_IN, ep, addr)
+            await turnaround()
+            await self.send_packet([pid_byte(hs if hs is not None else PID_NAK)])
+        elif kind == "ping":
+            await self.token(PID_PING, ep, addr)
+            await turnaround()
+            if hs is not None:
+                await self.send_packet([pid_byte(hs)])
+        else:
+            await self.token(PID_OUT, ep, addr)
+        await self.wait_response()
+        return [p for k, p in self.log if k == 'd'][n0:]
+
     async def set_address(self, a):
         r = await self.control_out(0x00, 5, a)
         if r == 'ok':
